@@ -18,7 +18,7 @@ VERIF = os.path.dirname(os.path.dirname(os.path.abspath(__file__)))
 DRIVER = os.path.join(VERIF, 'driver', 'instantiate.cpp')
 CACHE = os.path.join(VERIF, '.cache')
 MPI_INC = '/usr/lib/x86_64-linux-gnu/openmpi/include'
-CACHE_VERSION = 18
+CACHE_VERSION = 19
 
 
 class AnalysisBroken(Exception):
